@@ -14,7 +14,8 @@ RunFeed(s, st, reads, i, scopes) ==
     ELSE LET st1 == IF st.slabOff = SlabSize THEN RotateStep(st) ELSE st
              n == reads[i]
              sc == Append(scopes, Scope(st1))
-         IN  IF n = 0 THEN [st |-> EofStep(st1), scopes |-> sc, legal |-> i = Len(reads) /\ st1.pos = Total(s)]
+         IN  IF n = -1 THEN RunFeed(s, st1, reads, i + 1, sc)       \* a read that brought nothing and no error: retried (io.Reader allows it)
+             ELSE IF n = 0 THEN [st |-> EofStep(st1), scopes |-> sc, legal |-> i = Len(reads) /\ st1.pos = Total(s)]
              ELSE IF n > Cap(s, st1) THEN [st |-> st1, scopes |-> sc, legal |-> FALSE]
              ELSE RunFeed(s, ReadStep(s, st1, n), reads, i + 1, sc)
 
